@@ -67,12 +67,18 @@ Fixpoint spec (e : ox) : option meta :=
       | _, _ => None
       end
   | XDRep e n ia oa =>
+      (* the replicate axis is inserted at the normalised input / output position; with
+         output_axis = None the input position must also exist in the operand's output *)
       match spec e with
       | Some m =>
           match ish m, osh m with
           | Plain si, Plain so =>
-              if (length si <? ia)%nat || (length so <? oa)%nat then None
-              else Some (mkmeta (Plain (insert_at ia n si)) (Plain (insert_at oa n so)) (idt m) (odt m))
+              match drep_axes (length si) (length so) ia oa with
+              | Some (ki, ko) =>
+                  if (length so <? ko)%nat then None
+                  else Some (mkmeta (Plain (insert_at ki n si)) (Plain (insert_at ko n so)) (idt m) (odt m))
+              | None => None
+              end
           | _, _ => None
           end
       | None => None
